@@ -1,0 +1,10 @@
+//go:build verif
+
+package wsjson
+
+import "nhooyr.io/websocket"
+
+// vBuf reports the pooled buffer a read borrows and returns (identity only).
+func vBuf(c *websocket.Conn, ev string, b interface{}) {
+	websocket.VerifEmit(c, ev, "buf", websocket.VerifObjID(b), 0)
+}
